@@ -1244,6 +1244,30 @@ def run(chk):
         if over:
             chk.violation(r_as, key + ":default", "assign_deck (%s): a defaulted deck entry (n*) overwrites a cell whose status is %s, i.e. a cell that already has a value: what an earlier ADD / MULTIPLY / MINVALUE / OPERATE or the top-layer distribution left there is reset to the keyword default by a later assignment that merely defaults the cell" % (where, over), ad["file"], n["l"])
 
+    # ---- C12.toplayer: values given for the top layer fill only cells that have no value yet
+    r_tl = chk.rule("C12.toplayer", "FieldProps::distribute_toplayer copies a top-layer value down into a cell only when that cell is still `uninitialized` (status test with ==) and the top-layer entry was given in the deck (`deck_value`), and marks the cell `valid_default`; the running active index advances once per active cell, outside the status tests.  With a weaker test (`!= deck_value`) a later top-layer keyword overwrites cells that an earlier one had already filled, so the array no longer equals the keywords applied one after the other", floor=3)
+    dtl = [f for f in fx.fns if f["n"] == "distribute_toplayer" and f.get("body") and f["file"].endswith("FieldProps.cpp")]
+    if len(dtl) != 1:
+        raise core.AnalysisBroken("FieldProps::distribute_toplayer: %d definitions" % len(dtl))
+    dtl = dtl[0]
+    fdn = dtl["params"][0]["n"]
+    ifs_ = [n for n in walk(dtl["body"]) if n["k"] == "If"]
+    st_if = [n for n in ifs_ if re.search(r"%s\.value_status\[\w+\]" % fdn, show(n["cond"]))]
+    tp_if = [n for n in ifs_ if re.search(r"toplayer\.value_status\[\w+\]", show(n["cond"]))]
+    c_st = [show(strip(n["cond"])).replace("Opm::", "") for n in st_if]
+    c_tp = [show(strip(n["cond"])).replace("Opm::", "") for n in tp_if if n not in st_if]
+    chk.instance(r_tl, "cell-test", sample=dict(conditions=c_st))
+    if len(c_st) != 1 or not re.fullmatch(r"\(%s\.value_status\[(\w+)\] == value::status::uninitialized\)" % fdn, c_st[0]):
+        chk.violation(r_tl, "cell-test", "distribute_toplayer fills a cell under %s; it must fill it exactly when the cell's status == uninitialized" % c_st, dtl["file"], st_if[0]["l"] if st_if else dtl["l"])
+    chk.instance(r_tl, "layer-test", sample=dict(conditions=c_tp))
+    if len(c_tp) != 1 or not re.fullmatch(r"\(toplayer\.value_status\[(\w+)\] == value::status::deck_value\)", c_tp[0]):
+        chk.violation(r_tl, "layer-test", "distribute_toplayer takes the top-layer entry under %s; only entries given in the deck (status == deck_value) are copied down" % c_tp, dtl["file"], tp_if[0]["l"] if tp_if else dtl["l"])
+    inner_ = [show(x).replace("Opm::", "") for n in tp_if for x in stmt_list(n["then"])]
+    ok_in = len(inner_) == 2 and re.fullmatch(r"\(%s\.data\[(\w+)\] = toplayer\.data\[(\w+)\]\)" % fdn, inner_[0]) is not None and re.fullmatch(r"\(%s\.value_status\[(\w+)\] = value::status::valid_default\)" % fdn, inner_[1]) is not None
+    chk.instance(r_tl, "copy", sample=dict(statements=inner_))
+    if not ok_in:
+        chk.violation(r_tl, "copy", "distribute_toplayer, copy step: %s; required data[cell] = toplayer.data[column] and status[cell] = valid_default" % inner_, dtl["file"], tp_if[0]["l"] if tp_if else dtl["l"])
+
     # ---- C12.defregion: which region set a defaulted region-set item means
     r_dr = chk.rule("C12.defregion", "default_region_keyword(deck) - the region set ADDREG / EQUALREG / MULTIREG / COPYREG use when their region-set item is defaulted - is MULTNUM exactly when GRIDOPTS is present AND its NRMULT item is positive, and FLUXNUM otherwise (decision table; the documented rule, stated above the function)", floor=1)
     from verif import dtable as _dt
